@@ -184,10 +184,15 @@ def outer_check(ctx, c, outs):
         warnings.simplefilter("ignore")
         if c["lazy"]:
             a = O1.angle_with_outer(O2, lazy=True, chunk_size=c["chunk"], progressbar=False)
+            a_deg = O1.angle_with_outer(O2, lazy=True, chunk_size=c["chunk"], progressbar=False, degrees=True)
             d = None
         else:
             a = O1.angle_with_outer(O2)
+            a_deg = O1.angle_with_outer(O2, degrees=True)
             d = O1.dot_outer(O2)
+    if np.shape(a_deg) != np.shape(a) or (np.size(a) and np.abs(np.deg2rad(a_deg) - a).max() > 1e-12):
+        return (f"angle_with_outer(degrees=True) = {np.asarray(a_deg).tolist()} is not the angle in radians {np.asarray(a).tolist()} "
+                f"rescaled (lazy={c['lazy']}, {G1.name}, {G2.name})")
     if a.shape != s1 + s2 or (d is not None and d.shape != s1 + s2):
         return (f"outer result has shape {a.shape}, expected self.shape + other.shape = {s1 + s2} "
                 f"(lazy={c['lazy']})")
@@ -210,9 +215,13 @@ def distance_check(ctx, c, outs):
     with warnings.catch_warnings():
         warnings.simplefilter("ignore")
         D = O.get_distance_matrix(lazy=c["lazy"], chunk_size=c["chunk"], progressbar=False)
+        Dd = O.get_distance_matrix(lazy=c["lazy"], chunk_size=c["chunk"], progressbar=False, degrees=True)
     n = len(q)
     if D.shape != (n, n):
         return f"distance matrix shape {D.shape}"
+    if Dd.shape != D.shape or (n and np.abs(np.deg2rad(Dd) - D).max() > 1e-12):
+        return (f"Orientation.get_distance_matrix(degrees=True) = {np.asarray(Dd).tolist()} is not the matrix in radians "
+                f"{np.asarray(D).tolist()} rescaled ({G.name}, lazy={c['lazy']})")
     for i in range(n):
         for j in range(n):
             b = ang(brute_dot(G, G, q[i], q[j]))
@@ -246,6 +255,11 @@ def mis_check(ctx, c, outs):
     with warnings.catch_warnings():
         warnings.simplefilter("ignore")
         D = M.get_distance_matrix(chunk_size=c["chunk"], progressbar=False)
+        Dd = M.get_distance_matrix(chunk_size=c["chunk"], progressbar=False, degrees=True)
+    if np.shape(Dd) != np.shape(D) or (np.size(D) and np.abs(np.deg2rad(Dd) - D).max() > 1e-12):
+        return "Misorientation.get_distance_matrix(degrees=True) is not the matrix in radians rescaled"
+    with warnings.catch_warnings():
+        warnings.simplefilter("ignore")
     n = len(q)
     model01 = h2f(outs[0]) if outs else None
     for i in range(n):
